@@ -121,6 +121,7 @@ Definition resolve_path (filename base : string) : string := String.append (path
 Definition import_key (url base : string) : string := resolve_path (norm_sep url) base.
 Definition new_base (url base : string) : string := String.append base (path_from_url url).
 
+
 (* utilities.cpp: isStandardUnitName — over the table regenerated from utilities.h *)
 Definition is_std (n : string) : bool := existsb (fun p => String.eqb (fst p) n) standard_units_list.
 
@@ -260,6 +261,17 @@ Definition model_equals (a b : model) : bool :=
 
 Definition owner := option string.     (* None = the model given to resolveImports; Some k = library model under key k *)
 
+(* The base path the code hands to fetchUnits / fetchComponent for the entities of a model: the (normalised) base path
+   given to resolveImports -- here the fixed directory [dir_prefix] -- for the origin model, and for a library model
+   "newBase = baseFile + pathFromUrl(url)", which is the directory part of the key under which fetchModel stored it
+   (ImportProofs.new_base_dir).  [key_of o url] is therefore the library key fetchModel computes for the import URL
+   [url] of an entity of the model [o]: resolvePath(normaliseDirectorySeparator(url), base).  Keys are NOT normalised
+   any further by the code ("a/../f.cellml" and "f.cellml" are different keys); the file system of the model is a map
+   from keys as spelled to contents. *)
+Definition base_of (o : owner) : string :=
+  match o with None => dir_prefix | Some k => path_from_url k end.
+Definition key_of (o : owner) (url : string) : string := import_key url (base_of o).
+
 Definition owner_eqb (a b : owner) : bool :=
   match a, b with
   | None, None => true
@@ -304,7 +316,7 @@ Definition has_link (st : state) (o : owner) (sid : nat) : bool :=
 
 (* importsource.cpp: ImportSource::model() — null when never set or when the library model died *)
 Definition linked_model (st : state) (o : owner) (sid : nat) (url : string) : option model :=
-  if has_link st o sid then lib_get (lib st) (mk_key url) else None.
+  if has_link st o sid then lib_get (lib st) (key_of o url) else None.
 
 Definition set_link (st : state) (o : owner) (sid : nat) : state :=
   {| lib := lib st; links := (o, sid) :: links st; issues_rev := issues_rev st |}.
@@ -372,7 +384,7 @@ Inductive fm_result :=
 
 (* importer.cpp: ImporterImpl::fetchModel (called from fetchImportSource when !hasModel()) *)
 Definition fetch_model (strict : bool) (fs : fsys) (st : state) (o : owner) (sid : nat) (url : string) : fm_result :=
-  let k := mk_key url in
+  let k := key_of o url in
   match lib_get (lib st) k with
   | Some sm => FMok (set_link st o sid) [] sm
   | None =>
@@ -399,7 +411,7 @@ Definition related_comp (sc : option comp) (e : perr) : bool :=
   match e, sc with PEComp n, Some c => String.eqb n (cname c) | _, _ => false end.
 
 Definition fetch_epoch (o : owner) (url : string) : epoch :=
-  {| e_src := model_url o; e_dst := mk_key url; e_srcm := o; e_dstm := Some (mk_key url) |}.
+  {| e_src := model_url o; e_dst := key_of o url; e_srcm := o; e_dstm := Some (key_of o url) |}.
 
 (* a loop that threads a value through its steps and stops at the first step that does not answer true:
    "for (x : l) if (!step(x)) return false; return true;" *)
@@ -430,7 +442,7 @@ Definition fetch_units_body (rec : state -> owner -> list epoch -> units -> res 
       then Ok (false, add_issue st1 R_CYCLE (ItImport o url))
       else
         let hist' := hist ++ [h] in
-        let o' := Some (mk_key url) in
+        let o' := Some (key_of o url) in
         match find_units (m_units sm) ref with
         | None => Ok (false, add_issue st1 R_MISSING_UNITS (ItUnits o name))
         | Some su =>
@@ -496,7 +508,7 @@ Definition fetch_comp_body (recu : state -> owner -> list epoch -> units -> res 
       then Ok (false, add_issue st1 R_CYCLE (ItImport o url))
       else
         let hist' := hist ++ [h] in
-        let o' := Some (mk_key url) in
+        let o' := Some (key_of o url) in
         match sc with
         | None => Ok (false, add_issue st1 R_MISSING_COMPONENT (ItComp o name))
         | Some sc =>
@@ -609,9 +621,9 @@ Fixpoint units_test (fx : fixes) (fuel : nat) (ty : ttype) (st : state) (m0 : mo
         match find_units (m_units sm) ref with
         | None => Ok (false, hist)
         | Some iu =>
-          let h := {| e_src := importee_url hist url; e_dst := url; e_srcm := o; e_dstm := Some (mk_key url) |} in
+          let h := {| e_src := importee_url hist url; e_dst := url; e_srcm := o; e_dstm := Some (key_of o url) |} in
           if check_cycle st m0 hist h then Ok (false, hist)
-          else match units_test fx f ty st m0 (Some (mk_key url)) sm (hist ++ [h]) iu with
+          else match units_test fx f ty st m0 (Some (key_of o url)) sm (hist ++ [h]) iu with
                | Ok (b, hist') => Ok (b, if fx_pop fx then hist else hist')
                | other => other
                end
@@ -738,9 +750,9 @@ Fixpoint comp_test (fx : fixes) (fuel : nat) (ty : ttype) (st : state) (m0 : mod
                     | None => Ok false
                     | Some ic =>
                       let h := {| e_src := importee_url hist url; e_dst := url; e_srcm := o;
-                                  e_dstm := Some (mk_key url) |} in
+                                  e_dstm := Some (key_of o url) |} in
                       if check_cycle st m0 hist h then Ok false
-                      else comp_test fx f ty st m0 (Some (mk_key url)) sm (hist ++ [h]) ic
+                      else comp_test fx f ty st m0 (Some (key_of o url)) sm (hist ++ [h]) ic
                     end
                   end
                 | Comp _ None _ _ => Ok true             (* not reached *)
@@ -770,11 +782,11 @@ Definition is_defined (fx : fixes) (fuel : nat) (st : state) (m0 : model) : res 
 
 (* importer.cpp: ImporterImpl::resolvingUrl — the key of the linked model, or the raw URL *)
 Definition resolving_url (st : state) (o : owner) (sid : nat) (url : string) : string :=
-  match linked_model st o sid url with Some _ => mk_key url | None => url end.
+  match linked_model st o sid url with Some _ => key_of o url | None => url end.
 
 Definition scan_epoch (st : state) (o : owner) (sid : nat) (url : string) : epoch :=
   {| e_src := model_url o; e_dst := resolving_url st o sid url; e_srcm := o;
-     e_dstm := match linked_model st o sid url with Some _ => Some (mk_key url) | None => None end |}.
+     e_dstm := match linked_model st o sid url with Some _ => Some (key_of o url) | None => None end |}.
 
 (* importer.cpp: ImporterImpl::checkUnitsForCycles — true = an issue was found.  Never pops: the history
    (and the importer state, for the issue) are threaded through. *)
@@ -801,7 +813,7 @@ Fixpoint check_units_for_cycles (fuel : nat) (m0 : model) (o : owner) (cm : mode
         | Some sm =>
           match find_units (m_units sm) ref with
           | None => Ok (true, (hist', add_issue st R_MISSING_UNITS (ItImport o url)))
-          | Some iu => check_units_for_cycles f m0 (Some (mk_key url)) sm (hist', st) iu
+          | Some iu => check_units_for_cycles f m0 (Some (key_of o url)) sm (hist', st) iu
           end
         end
     end
@@ -827,7 +839,7 @@ Fixpoint check_comp_for_cycles (fuel : nat) (st : state) (m0 : model) (o : owner
           | None => Ok (true, add_issue st R_MISSING_COMPONENT (ItImport o url))
           | Some ic =>
             match cimp ic with
-            | Some _ => check_comp_for_cycles f st m0 (Some (mk_key url)) hist' ic
+            | Some _ => check_comp_for_cycles f st m0 (Some (key_of o url)) hist' ic
             | None => Ok (false, st)
             end
           end
